@@ -165,14 +165,18 @@ type rawResponseRecorder struct{}
 
 func (r rawResponseRecorder) WrapUnary(next connect.UnaryFunc) connect.UnaryFunc {
 	return func(ctx context.Context, req connect.AnyRequest) (connect.AnyResponse, error) {
-		if msg, ok := req.Any().(*conformancev1.UnaryRequest); ok {
-			rawResponse := msg.GetResponseDefinition().GetRawResponse()
-			if rawResponse != nil {
-				if err := setRawResponse(ctx, rawResponse); err != nil {
-					return nil, err
-				}
-				return nil, connect.NewError(connect.CodeAborted, errors.New("use raw response instead"))
+		var rawResponse *conformancev1.RawHTTPResponse
+		switch msg := req.Any().(type) {
+		case *conformancev1.UnaryRequest:
+			rawResponse = msg.GetResponseDefinition().GetRawResponse()
+		case *conformancev1.IdempotentUnaryRequest:
+			rawResponse = msg.GetResponseDefinition().GetRawResponse()
+		}
+		if rawResponse != nil {
+			if err := setRawResponse(ctx, rawResponse); err != nil {
+				return nil, err
 			}
+			return nil, connect.NewError(connect.CodeAborted, errors.New("use raw response instead"))
 		}
 		return next(ctx, req)
 	}
